@@ -5,6 +5,8 @@ CONSTANTS
   Ks = {1, 2}
   NsSeq <- Ns3
   WithEmpty = TRUE
+  CfgRs = {TRUE, FALSE}
+  CfgSs = {TRUE, FALSE}
 VIEW view
 INVARIANTS RefsOK DiskOK ObjsCanon LatentUnreachable
 CHECK_DEADLOCK FALSE
